@@ -96,6 +96,12 @@ fn gen(rng: &mut Rng, idx: u64, _tier: Tier) -> Case {
             let mut ghost = gen::aircraft(rng, ghost_addr);
             let ac = if rng.chance(0.2) { &mut ghost } else { &mut acs[a] };
             let mut f = gen::frame(rng, ac, k, true);
+            // sometimes the corrupted frame is a copy of the squitter that was delivered just before it
+            if rng.chance(0.3) {
+                if let Some(prev) = lines.iter().rev().map(|l| crate::refm::classify(&l.1[..l.1.len() - 1])).find(|c| c.frame.is_some()) {
+                    if prev.accepted && matches!(prev.df, 11 | 17 | 18) { f = prev.frame.unwrap(); }
+                }
+            }
             let (class, pos) = pattern(rng, idx.wrapping_mul(3).wrapping_add(sub), f.len() * 8);
             sub += 1;
             for p in &pos { modes::flip_bit(&mut f, *p); }
